@@ -3,6 +3,7 @@ pub mod c02;
 pub mod c05;
 pub mod c08;
 pub mod c09;
+pub mod c10;
 pub mod c12;
 pub mod c13;
 pub mod c15;
@@ -10,12 +11,8 @@ pub mod c17;
 pub mod c20;
 pub mod part;
 
-/// Restarting a logger that writes directly to timestamp-named files (TimestampsDirect,
-/// TimestampsCustomFormat without current infix) is a listed finding (see known_findings.txt,
-/// property C06). Checks of other properties avoid that region by construction and count it.
-pub fn avoid_direct_ts_restart(cfg: &crate::fscn::FileCfg) -> bool {
-    match cfg.nam() {
-        Some(n) => n.is_ts() && !n.rename_style(),
-        None => false,
-    }
+/// Restarting a logger that writes directly to timestamp-named files used to be a listed
+/// finding; it was repaired in /repo (fix commit d7661b4), so nothing is avoided any more.
+pub fn avoid_direct_ts_restart(_cfg: &crate::fscn::FileCfg) -> bool {
+    false
 }
